@@ -668,5 +668,295 @@ Proof.
     rewrite EM. apply Forall_map. exact F3.
 Qed.
 
-Print Assumptions accept_sorted_lemma.
-Print Assumptions accept_bounds_lemma.
+
+(* ================================================================== *)
+(* Totality of the loader on byte lists                                 *)
+
+Lemma gtt_scan_total abbrs off isdst abbr : forall types ti ai,
+  Forall (abbr_ok abbrs) types -> exists r, gtt_scan types abbrs off isdst abbr ti ai = OK r.
+Proof.
+  induction types as [|ty rest IH]; intros ti ai F; [eexists; reflexivity|].
+  inversion F as [|? ? A F']; subst. cbn [gtt_scan].
+  destruct (cstr_from_ok abbrs (tt_abbr ty) A) as [ab Eab]. rewrite Eab. cbn [bind].
+  match goal with |- context [if ?c then _ else _] => destruct c end; [eexists; reflexivity|].
+  apply IH. exact F'.
+Qed.
+
+Lemma gtt_total types abbrs off isdst abbr : Forall (abbr_ok abbrs) types ->
+  exists r, get_transition_type types abbrs off isdst abbr = OK r.
+Proof.
+  intros F. unfold get_transition_type.
+  destruct (gtt_scan_total abbrs off isdst abbr types 0 (Z.of_nat (length abbrs)) F) as [[ti ai] E].
+  rewrite E. cbn [bind].
+  destruct ((255 <? ti) || (255 <? ai)); [eexists; reflexivity|].
+  destruct (ti =? Z.of_nat (length types)); eexists; reflexivity.
+Qed.
+
+Lemma equiv_total types i1 i2 :
+  0 <= i1 < Z.of_nat (length types) -> 0 <= i2 < Z.of_nat (length types) ->
+  exists b, equiv_transitions types i1 i2 = OK b.
+Proof.
+  intros H1 H2. unfold equiv_transitions. destruct (i1 =? i2); [eexists; reflexivity|].
+  destruct (nth_res_ok types i1 H1) as [t1 E1]. destruct (nth_res_ok types i2 H2) as [t2 E2].
+  rewrite E1, E2. cbn [bind]. eexists; reflexivity.
+Qed.
+
+Lemma all_year_dst_total p : pt_ok (dst_start p) -> pt_ok (dst_end p) ->
+  (exists so, std_offset p = Some so) -> (exists dof, dst_offset p = Some dof) ->
+  exists b, all_year_dst p = OK b.
+Proof.
+  intros (d1 & t1 & E1 & _) (d2 & t2 & E2 & _) [so Eso] [dof Edo].
+  unfold all_year_dst. rewrite E1, E2, Eso, Edo. cbn [pt_date pt_time get_opt bind].
+  destruct d1 as [n|n|m w wd]; try (eexists; reflexivity).
+  destruct (negb (n =? 0)); [eexists; reflexivity|].
+  destruct (negb (t1 =? 0)); [eexists; reflexivity|].
+  destruct d2 as [j|j|m w wd]; try (eexists; reflexivity).
+  destruct (negb (j =? nthZ src_kDaysPerYear 0)); eexists; reflexivity.
+Qed.
+
+Lemma local_time_tt_total abbrs t ty : int64 t -> off_ok ty -> abbr_ok abbrs ty ->
+  exists ab, local_time_tt abbrs t ty =
+             OK (mkAL (civil_of_seconds (t + tt_off ty)) (tt_off ty) (tt_isdst ty) ab).
+Proof.
+  intros Ht Ho Ha. rewrite local_time_tt_val by assumption.
+  destruct (cstr_from_ok abbrs (tt_abbr ty) Ha) as [ab E]. rewrite E. cbn [bind]. eauto.
+Qed.
+
+Definition tr_ok (ntypes : nat) (tr : transition) : Prop :=
+  - 2 ^ 59 <= tr_time tr <= 2 ^ 60 /\ 0 <= tr_type tr < Z.of_nat ntypes.
+
+Lemma extend_total trans types abbrs future :
+  trans <> [] ->
+  Forall (tr_ok (length types)) trans ->
+  (forall last, last_opt trans = Some last -> t59 (tr_time last)) ->
+  Forall off_ok types -> Forall (abbr_ok abbrs) types ->
+  exists r, extend_transitions trans types abbrs future = OK r.
+Proof.
+  intros Hne Ftr Hl Fo Fa. unfold extend_transitions.
+  destruct future as [|c0 fut]; [eexists; reflexivity|].
+  destruct (ParsePosixSpec (c0 :: fut)) as [p|] eqn:EP; [|eexists; reflexivity].
+  destruct (parse_ok _ _ EP) as (so & Eso & Hso & D).
+  rewrite Eso. cbn [get_opt bind].
+  destruct (gtt_total types abbrs so false (std_abbr p) Fa) as [r1 E1]. rewrite E1. cbn [bind].
+  destruct r1 as [[[types1 abbrs1] std_ti]|]; [|eexists; reflexivity].
+  destruct (gtt_types _ _ _ _ _ _ _ _ E1 ltac:(lia)) as (I1 & _ & L1 & F1 & A1).
+  specialize (F1 Fo). specialize (A1 Fa).
+  destruct (last_opt_nonempty trans Hne) as [last EL]. rewrite EL. cbn [bind].
+  pose proof (Hl _ EL) as HT.
+  assert (TL : 0 <= tr_type last < Z.of_nat (length types)).
+  { apply last_opt_In in EL. rewrite Forall_forall in Ftr. exact (proj2 (Ftr _ EL)). }
+  destruct (dst_abbr p) as [|dc dr] eqn:ED.
+  { destruct (equiv_total types1 (tr_type last) std_ti ltac:(lia) I1) as [b Eb].
+    rewrite Eb. cbn [bind]. destruct b; eexists; reflexivity. }
+  destruct D as [Dn | (dof & Edo & Hdo & P1 & P2)]; [discriminate|].
+  rewrite Edo. cbn [get_opt bind].
+  destruct (gtt_total types1 abbrs1 dof true (dc :: dr) A1) as [r2 E2]. rewrite E2. cbn [bind].
+  destruct r2 as [[[types2 abbrs2] dst_ti]|]; [|eexists; reflexivity].
+  destruct (gtt_types _ _ _ _ _ _ _ _ E2 ltac:(lia)) as (I2 & _ & L2 & F2 & A2).
+  specialize (F2 F1). specialize (A2 A1).
+  destruct (all_year_dst_total p P1 P2 ltac:(eauto) ltac:(eauto)) as [ay Eay]. rewrite Eay. cbn [bind].
+  destruct ay.
+  { destruct (equiv_total types2 (tr_type last) dst_ti ltac:(lia) I2) as [b Eb].
+    rewrite Eb. cbn [bind]. destruct b; eexists; reflexivity. }
+  destruct (nth_res_ok types2 (tr_type last) ltac:(lia)) as [ltt Eltt]. rewrite Eltt. cbn [bind].
+  destruct (nth_res_inv _ _ _ Eltt) as [Inl _].
+  assert (O5 : off_ok ltt) by (rewrite Forall_forall in F2; auto).
+  assert (A5 : abbr_ok abbrs2 ltt) by (rewrite Forall_forall in A2; auto).
+  assert (I64 : int64 (tr_time last)).
+  { unfold t59 in HT. unfold int64, min64, max64. change (2 ^ 59) with 576460752303423488 in HT. lia. }
+  destruct (local_time_tt_total abbrs2 (tr_time last) ltt I64 O5 A5) as [ab Eal].
+  rewrite Eal. cbn [bind al_cs].
+  assert (YB := cos_year_small (tr_time last + tt_off ltt)
+                  ltac:(unfold off_ok in O5; unfold t59 in HT; lia)).
+  destruct (ext_tail_ok (dst_start p) (dst_end p) so dof std_ti dst_ti (tr_time last)
+              (fy (civil_of_seconds (tr_time last + tt_off ltt))) P1 P2 ltac:(lia) ltac:(lia) YB)
+    as (st & K & _).
+  eexists.
+  exact (K _ (fun st => OK (Some (trans ++ es_acc st, types2, abbrs2, true, es_year st)))).
+Qed.
+
+Lemma civil_pass_total abbrs types : Forall off_ok types -> Forall (abbr_ok abbrs) types ->
+  forall trans ttp prev acc, off_ok ttp -> abbr_ok abbrs ttp ->
+  Forall (tr_ok (length types)) trans ->
+  exists r, civil_pass abbrs types ttp prev trans acc = OK r.
+Proof.
+  intros Fo Fa. induction trans as [|tr rest IH]; intros ttp prev acc O A F; [eexists; reflexivity|].
+  inversion F as [|? ? [T1 T2] F']; subst. cbn [civil_pass].
+  assert (I64 : int64 (tr_time tr)).
+  { unfold int64, min64, max64. change (2 ^ 59) with 576460752303423488 in T1.
+    change (2 ^ 60) with 1152921504606846976 in T1. lia. }
+  destruct (local_time_tt_total abbrs (tr_time tr) ttp I64 O A) as [ab Ea]. rewrite Ea. cbn [bind al_cs].
+  rewrite minus64_sec.
+  2: apply valid_cos.
+  2:{ pose proof (cos_year_int64 (tr_time tr + tt_off ttp)
+                   ltac:(unfold off_ok in O; unfold int64, min64, max64 in *; lia)).
+      unfold int64, min64, max64. lia. }
+  2:{ unfold int64, min64, max64. lia. }
+  2:{ rewrite sec_of_cos. unfold off_ok in O; unfold int64, min64, max64 in *. lia. }
+  cbn [bind].
+  destruct (nth_res_ok types (tr_type tr) T2) as [ttp' Et]. rewrite Et. cbn [bind].
+  destruct (nth_res_inv _ _ _ Et) as [Int _].
+  assert (O' : off_ok ttp') by (rewrite Forall_forall in Fo; auto).
+  assert (A' : abbr_ok abbrs ttp') by (rewrite Forall_forall in Fa; auto).
+  destruct (local_time_tt_total abbrs (tr_time tr) ttp' I64 O' A') as [ab' Eb]. rewrite Eb. cbn [bind al_cs].
+  destruct prev as [[pc pt]|].
+  - destruct (negb (lt64 pc _)); [eexists; reflexivity|].
+    destruct (negb (pt <? tr_time tr)); [eexists; reflexivity|].
+    apply IH; assumption.
+  - apply IH; assumption.
+Qed.
+
+Lemma set_civil_limits_total abbrs : forall types,
+  Forall off_ok types -> Forall (abbr_ok abbrs) types ->
+  exists r, set_civil_limits abbrs types = OK r.
+Proof.
+  induction types as [|ty rest IH]; intros Fo Fa; [eexists; reflexivity|].
+  inversion Fo as [|? ? O Fo']; inversion Fa as [|? ? A Fa']; subst. cbn [set_civil_limits].
+  destruct (local_time_tt_total abbrs max64 ty ltac:(unfold int64, min64, max64; lia) O A) as [ab1 E1].
+  destruct (local_time_tt_total abbrs min64 ty ltac:(unfold int64, min64, max64; lia) O A) as [ab2 E2].
+  rewrite E1, E2. cbn [bind]. destruct (IH Fo' Fa') as [r E]. rewrite E. cbn [bind]. eexists; reflexivity.
+Qed.
+
+(* ---- lists of bytes ---- *)
+Definition byteP (c : Z) : Prop := 0 <= c <= 255.
+
+Lemma all_bytes_Forall s : all_bytes s = true -> Forall byteP s.
+Proof.
+  unfold all_bytes. rewrite forallb_forall. intros H. apply Forall_forall. intros x Hx.
+  specialize (H x Hx). unfold is_byte in H. unfold byteP. lia.
+Qed.
+
+Lemma Forall_firstn {A} (P : A -> Prop) n l : Forall P l -> Forall P (firstn n l).
+Proof. intros H. rewrite <- (firstn_skipn n l) in H. apply Forall_app in H. tauto. Qed.
+Lemma Forall_skipn {A} (P : A -> Prop) n l : Forall P l -> Forall P (skipn n l).
+Proof. intros H. rewrite <- (firstn_skipn n l) in H. apply Forall_app in H. tauto. Qed.
+
+Lemma nthZ_byte l i : Forall byteP l -> byteP (nthZ l i).
+Proof.
+  intros F. unfold nthZ. destruct (nth_in_or_default i l 0) as [H|H].
+  - rewrite Forall_forall in F. auto.
+  - rewrite H. unfold byteP. lia.
+Qed.
+
+Lemma chunks_length : forall n k bs, length (chunks n k bs) = n.
+Proof. induction n; intros; cbn [chunks length]; auto. Qed.
+
+Lemma chunks_bytes : forall n k bs, Forall byteP bs -> Forall (Forall byteP) (chunks n k bs).
+Proof.
+  induction n as [|n IH]; intros k bs F; cbn [chunks]; constructor.
+  - apply Forall_firstn; exact F.
+  - apply IH. apply Forall_skipn; exact F.
+Qed.
+
+Lemma read_n_inv n src a b : read_n n src = Some (a, b) ->
+  a = firstn (Z.to_nat n) src /\ b = skipn (Z.to_nat n) src /\ length a = Z.to_nat n.
+Proof.
+  unfold read_n. destruct (Z.ltb_spec (Z.of_nat (length src)) n) as [L|L]; [discriminate|].
+  intros K; inversion K; subst. repeat split. rewrite firstn_length. lia.
+Qed.
+
+Lemma skip_z_bytes n src : Forall byteP src -> Forall byteP (skip_z n src).
+Proof.
+  intros F. unfold skip_z. destruct (Z.of_nat (length src) <=? n); [constructor|].
+  apply Forall_skipn; exact F.
+Qed.
+
+Definition hdr_ok (h : header) : Prop :=
+  0 <= h_timecnt h /\ 0 <= h_typecnt h /\ 0 <= h_charcnt h /\ 0 <= h_leapcnt h /\
+  0 <= h_isstdcnt h /\ 0 <= h_isutcnt h.
+
+Lemma header_build_inv tzh h : header_build tzh = Some h -> hdr_ok h.
+Proof.
+  unfold header_build. cbv zeta.
+  match goal with |- (if ?c then _ else _) = _ -> _ => destruct c eqn:E end; [discriminate|].
+  intros H; inversion H; subst. unfold hdr_ok. cbn [h_timecnt h_typecnt h_charcnt h_leapcnt h_isstdcnt h_isutcnt].
+  repeat (apply orb_false_iff in E; destruct E as [E ?]).
+  repeat match goal with H : (_ <? 0) = false |- _ => apply Z.ltb_ge in H end.
+  lia.
+Qed.
+
+(* ---- default type search ---- *)
+Lemma dflt_down_ok types : forall fuel index,
+  0 <= index < Z.of_nat (length types) -> index < Z.of_nat fuel ->
+  exists r, dflt_down fuel types index = OK r /\ 0 <= r <= index.
+Proof.
+  induction fuel as [|f IH]; intros index H1 H2; [lia|].
+  cbn [dflt_down]. destruct (Z.eqb_spec index 0) as [->|N]; [exists 0; split; [reflexivity|lia]|].
+  destruct (nth_res_ok types index H1) as [ty E]. rewrite E. cbn [bind].
+  destruct (tt_isdst ty); [|exists index; split; [reflexivity|lia]].
+  destruct (IH (index - 1) ltac:(lia) ltac:(lia)) as (r & Er & Hr).
+  exists r. split; [exact Er|lia].
+Qed.
+
+Lemma dflt_up_ok types typecnt : typecnt = Z.of_nat (length types) -> forall fuel index,
+  0 <= index <= typecnt -> typecnt - index < Z.of_nat fuel ->
+  exists r, dflt_up fuel types typecnt index = OK r /\ index <= r <= typecnt.
+Proof.
+  intros ET. induction fuel as [|f IH]; intros index H1 H2; [lia|].
+  cbn [dflt_up]. destruct (Z.eqb_spec index typecnt) as [->|N]; [exists typecnt; split; [reflexivity|lia]|].
+  destruct (nth_res_ok types index ltac:(lia)) as [ty E]. rewrite E. cbn [bind].
+  destruct (tt_isdst ty); [|exists index; split; [reflexivity|lia]].
+  destruct (IH (index + 1) ltac:(lia) ltac:(lia)) as (r & Er & Hr).
+  exists r. split; [exact Er|lia].
+Qed.
+
+Lemma combine_both (P Q : Z -> Prop) : forall times idxs, Forall P times -> Forall Q idxs ->
+  Forall (fun tr => P (tr_time tr) /\ Q (tr_type tr))
+         (map (fun '(t, i) => mkTr t i epoch epoch) (combine times idxs)).
+Proof.
+  induction times as [|t ts IH]; intros idxs F G; [constructor|].
+  destruct idxs as [|i is]; [constructor|].
+  inversion F; inversion G; subst. cbn [combine map]. constructor; [cbn [tr_time tr_type]; auto|].
+  apply IH; assumption.
+Qed.
+
+Ltac peel_some H :=
+  match type of H with
+  | (if ?c then _ else _) = Some _ => let E := fresh "E" in destruct c eqn:E; try discriminate H
+  | (match ?x with _ => _ end) = Some _ => let E := fresh "E" in destruct x eqn:E; try discriminate H
+  end.
+
+Ltac skip_if :=
+  match goal with
+  | |- exists r, (if ?c then _ else _) = OK r =>
+      let E := fresh "C" in destruct c eqn:E; [eexists; reflexivity|]
+  end.
+
+Lemma load_total_bytes_lemma : forall bs, all_bytes bs = true -> exists r, load_bytes bs = OK r.
+Proof.
+  intros bs AB. apply all_bytes_Forall in AB. unfold load_bytes.
+  destruct (read_n 44 bs) as [[tzh1 src1]|] eqn:R1; [|eexists; reflexivity].
+  apply read_n_inv in R1. destruct R1 as (_ & E1 & _).
+  assert (B1 : Forall byteP src1) by (subst src1; apply Forall_skipn; exact AB).
+  clear E1.
+  skip_if.
+  destruct (header_build _) as [hdr1|] eqn:HB1; [|eexists; reflexivity].
+  cbv zeta.
+  match goal with |- exists r, match ?s2 with _ => _ end = OK r =>
+    destruct s2 as [[[[hdr tl] ver] src4]|] eqn:S2; [|eexists; reflexivity] end.
+  assert (S2' : (tl = 4 \/ tl = 8) /\ Forall byteP src4 /\ hdr_ok hdr).
+  { repeat peel_some S2; inversion S2; subst; clear S2.
+    - match goal with E : read_n 44 _ = Some _ |- _ =>
+        apply read_n_inv in E; destruct E as (_ & E & _) end.
+      split; [right; reflexivity|]. split.
+      + subst src4. apply Forall_skipn. apply skip_z_bytes. exact B1.
+      + eapply header_build_inv; eauto.
+    - split; [left; reflexivity|]. split.
+      + exact B1.
+      + eapply header_build_inv; eauto. }
+  destruct S2' as (Htl & B4 & HH).
+  skip_if. skip_if. skip_if. skip_if.
+  destruct (read_n (data_length hdr tl) src4) as [[tbuf src5]|] eqn:R3; [|eexists; reflexivity].
+  apply read_n_inv in R3. destruct R3 as (Etb & Es5 & Ltb).
+  assert (Btb : Forall byteP tbuf) by (subst tbuf; apply Forall_firstn; exact B4).
+  assert (B5 : Forall byteP src5) by (subst src5; apply Forall_skipn; exact B4).
+  clear Etb Es5 S2.
+  match goal with |- context [forallb time_in_range ?ts] => set (times := ts) in * end.
+  match goal with |- context [forallb (fun i => i <? h_typecnt hdr) ?ix] => set (idxs := ix) in * end.
+  match goal with |- context [forallb _ (map ?f (chunks ?n 6 ?b))] =>
+    set (raw := chunks n 6 b) in *; set (types0 := map f raw) in * end.
+  match goal with |- context [firstn (Z.to_nat (h_charcnt hdr)) ?b] =>
+    set (abbrs := firstn (Z.to_nat (h_charcnt hdr)) b) in * end.
+  skip_if. skip_if. skip_if.
+  Show.
+Abort.
